@@ -237,7 +237,52 @@ def takeover_cases(rng, n):
         NODE_REGISTRY.clear()
 
 
+def suffixed_payload_cases(rng, n):
+    """a payload whose id carries a collision suffix (the second / third of several content-identical nodes was serialized)
+    is read back when the base id is free again: the node is registered under exactly ONE id, the serialized one; the base
+    id stays free (a later identical construction gets it); after detach() the node is not returned under any id"""
+    import gc
+    from pyoak.node import NODE_REGISTRY, ASTNode
+    import zoo
+    for _ in range(n):
+        gc.collect()
+        NODE_REGISTRY.clear()
+        v = rng.randrange(10 ** 6)
+        deep = rng.random() < 0.5
+        mk = (lambda: zoo.Un(zoo.Leaf(v=v))) if deep else (lambda: zoo.Leaf(v=v))
+        twins = [mk() for _k in range(rng.choice([2, 3]))]
+        base = twins[0].id
+        last = twins[-1]
+        payload, lid = last.as_dict(), last.id
+        cls = type(last)
+        del twins, last
+        gc.collect()
+        NODE_REGISTRY.clear()
+        fail = None
+        back = cls.as_obj(payload)
+        keys = [k for k, o in list(NODE_REGISTRY.items()) if o is back]
+        if back.id != lid:
+            fail = f"id {back.id}, serialized {lid}"
+        elif keys != [lid]:
+            fail = f"the node read back (id {lid}) is registered under {keys}"
+        elif ASTNode.get_any(base) is not None and base != lid:
+            fail = f"the free base id {base} returns a node after as_obj of a payload with id {lid}"
+        else:
+            fresh = mk()
+            if fresh.id != base:
+                fail = f"a fresh identical construction gets id {fresh.id}; the base id {base} was free"
+            del fresh
+            back.detach()
+            if any(o is back for o in list(NODE_REGISTRY.values())):
+                fail = fail or "after detach() the node is still registered under some id"
+        yield Case("directed:suffixed-payload", None, None, True,
+                   f"{'Un(Leaf' if deep else 'Leaf'}(v={v})) x{lid.count('_') + 1 if '_' in lid else 1}: payload with id {lid} read back with base id {base} free",
+                   oracle_fail=fail, sig="registry|directed|suffixed-payload")
+        del back, payload
+
+
 def cases(rng: random.Random, tier: str):
+    yield from suffixed_payload_cases(rng, 6 if tier == "quick" else 100)
     yield from f19_corpus()
     yield from directed_registry_cases(rng, 10 if tier == "quick" else 200)
     yield from takeover_cases(rng, 6 if tier == "quick" else 100)
